@@ -46,7 +46,7 @@ EmitVerdict(ev) ==
 
 Blank == inp' = <<>> /\ cfg' = NoCfg /\ delivered' = 0 /\ eof' = FALSE /\ cnt' = 0 /\ exp' = NoExp
 Skip(k, what) ==
-  /\ Reject(k, [what |-> what, name |-> cfg.name, bom |-> HasBOM(inp), delivered |-> delivered,
+  /\ Reject(k, [what |-> what, name |-> cfg.name, cfg |-> cfg, all |-> exp, bom |-> HasBOM(inp), delivered |-> delivered,
                 expected |-> IF cnt + 1 <= Len(exp.recs) THEN <<exp.recs[cnt + 1]>> ELSE <<>>, names |-> exp.names])
   /\ l' = AfterNextReset(k) /\ Blank
 
